@@ -2,9 +2,9 @@
 
 Every sequence of <= 2 (thorough 3) lines from a 25-line alphabet (the delimiter itself, with blanks around it, doubled,
 behind tabs, escaped; $x \\$x \\\\ trailing backslash, quotes, command substitutions, empty line ...) x the four delimiter
-forms; the body Body(form, lines) of the model must be what `cat` receives, in seven syntactic placements of the
+forms; the body Body(form, lines) of the model must be what `cat` receives, in eight syntactic placements of the
 document (plain, redirection order swapped, in a function, in a command substitution, second of two documents on one
-line, in a pipeline, on descriptor 3 of a brace group)."""
+line, in a pipeline, on descriptor 3 of a brace group, after another document of the other form opened on the same line)."""
 import random
 from .common import *
 
@@ -37,7 +37,7 @@ def opener(form, h):
     return ["<<-'E'", "<<-\\E"][h % 2]
 
 
-CONTEXTS = ["plain", "swapped", "func", "cs", "second", "pipe", "fd3"]
+CONTEXTS = ["plain", "swapped", "func", "cs", "second", "pipe", "fd3", "pair"]
 
 
 def script(doc, ctx, h):
@@ -50,6 +50,11 @@ def script(doc, ctx, h):
         return "x=V\n>../body cat %s\n%s" % (op, lines)
     if ctx == "second":
         return "x=V\ncat <<F %s >../body\nfirst $x\nF\n%s" % (op, lines)
+    if ctx == "pair":
+        # two documents of (possibly) different forms opened on one line, both read: the first has a tab-led line of its own
+        if h % 2:
+            return "x=V\n{ cat <&3; cat; } 3<<-F %s >../body\n\tt1 $x\nm\n\tF\n%s" % (op, lines)
+        return "x=V\n{ cat <&3; cat; } 3<<F %s >../body\n\tt1 $x\nm\nF\n%s" % (op, lines)
     if ctx == "pipe":
         return "x=V\ncat %s | cat >../body\n%s" % (op, lines)
     if ctx == "fd3":
@@ -85,9 +90,9 @@ def run_part(v, tier):
         if not d["term"] and rnd.random() > 0.08:
             continue                       # documents that run to the end of the input: a sample is enough (one recorded finding covers them)
         h = int(hashlib.sha1(json.dumps([d["form"], d["lines"]]).encode()).hexdigest()[:6], 16)
-        ctxs = CONTEXTS if tier != "quick" or len(d["lines"]) < 2 else [CONTEXTS[h % 7], CONTEXTS[(h // 7) % 7]]
+        ctxs = CONTEXTS if tier != "quick" or len(d["lines"]) < 2 else [CONTEXTS[h % 8], CONTEXTS[(h // 8) % 8]]
         if tier != "quick" and len(d["lines"]) == 3:
-            ctxs = [CONTEXTS[h % 7]]
+            ctxs = [CONTEXTS[h % 8]]
         for ctx in dict.fromkeys(ctxs):
             scr = script(d, ctx, h)
             if scr is not None:
@@ -102,6 +107,8 @@ def run_part(v, tier):
     for (d, ctx, scr), b, r, rr in pmap(one, jobs):
         n += 1
         exp = txt(d["body"])
+        if ctx == "pair":
+            exp = ("t1 V\nm\n" if "3<<-F" in scr else "\tt1 V\nm\n") + exp
         if ctx == "cs":
             exp = exp.rstrip("\n")
         if crashed(rr) or rr["timeout"]:
